@@ -12,6 +12,13 @@ from ..fsm import describe
 from ..spec import rfc7540_stream as ref
 from . import common as cm
 
+CLOSED_BY_CLASSES = {
+    frozenset({'RECV_RST_STREAM', 'SEND_RST_STREAM'}):
+        '_stream_is_closed_by_reset',
+    frozenset({'RECV_END_STREAM', 'SEND_END_STREAM'}):
+        '_stream_is_closed_by_end',
+}
+
 # Step-sequence contracts (appendix A, layer 2): method -> function of
 # (end_stream truth on the path, informational truth on the path) giving the
 # sequence of stream inputs a normally returning path must have fed.
@@ -262,25 +269,53 @@ def check_receive_frame(eng, ctx):
     def caught(p, name):
         return [e for e in p.events if e.kind == 'catch' and
                 name in e.names]
+
+    def closed_by_facts(p):
+        """What the path has established about how the stream named by the
+        exception was closed: {'_stream_is_closed_by_reset': bool,
+        '_stream_is_closed_by_end': bool} plus 'arg_ok'.  The test is either
+        a call of the classifying helper (whose own body is checked below)
+        or the helper's body written out at the use site: membership of
+        `_stream_closed_by(id)` in the two RST / the two END_STREAM
+        members."""
+        facts = {'arg_ok': True}
+        for e in p.events:
+            if e.kind != 'assume':
+                continue
+            c, neg = (e.cond[1], True) if e.cond[0] == 'not' \
+                else (e.cond, False)
+            nm = arg = None
+            if c[0] == 'truth' and c[1][0] == 'call':
+                nm = c[1][1].split('.')[-1]
+                arg = c[1][2][-1] if c[1][2] else None
+                if not nm.startswith('_stream_is_closed_by'):
+                    facts[nm] = not neg
+                    continue
+            else:
+                mf = cm.member_form(c)
+                if mf is None or not (mf[0][0] == 'call' and
+                                      mf[0][1].endswith('_stream_closed_by')):
+                    continue
+                arg = mf[0][2][-1] if mf[0][2] else None
+                nm = CLOSED_BY_CLASSES.get(frozenset(mf[1]))
+                if nm is None:
+                    facts['arg_ok'] = False     # a classification that is
+                    continue                    # neither of the two
+            facts[nm] = not neg
+            if not (arg is not None and arg[0] == 'a' and
+                    arg[2] == 'stream_id' and arg[1][0] == 'exc'):
+                facts['arg_ok'] = False
+        return facts
     # --- StreamClosedError
     sc = [p for p in paths if caught(p, 'StreamClosedError')]
     ok1 = bool(sc)
     detail = []
     for p in sc:
-        byreset = None
-        for e in p.events:
-            if e.kind == 'assume':
-                c, neg = (e.cond[1], True) if e.cond[0] == 'not' \
-                    else (e.cond, False)
-                if c[0] == 'truth' and c[1][0] == 'call' and \
-                        c[1][1].endswith('_stream_is_closed_by_reset'):
-                    byreset = not neg
-                    arg = c[1][2][-1]
-                    if not (arg[0] == 'a' and arg[2] == 'stream_id' and
-                            arg[1][0] == 'exc'):
-                        ok1 = False
-                        detail.append('closed-by-reset test not on '
-                                      'e.stream_id')
+        f_ = closed_by_facts(p)
+        byreset = f_.get('_stream_is_closed_by_reset')
+        if not f_['arg_ok']:
+            ok1 = False
+            detail.append('closed-by-reset test not on e.stream_id')
         if byreset is None:
             if p.exit == 'raise' and (p.exc.get('via_call') is not None or
                                       p.exc.get('via_load') is not None):
@@ -322,20 +357,10 @@ def check_receive_frame(eng, ctx):
     ok2 = bool(tl)
     kinds = set()
     for p in tl:
-        facts = {}
-        for e in p.events:
-            if e.kind == 'assume':
-                c, neg = (e.cond[1], True) if e.cond[0] == 'not' \
-                    else (e.cond, False)
-                if c[0] == 'truth' and c[1][0] == 'call':
-                    nm = c[1][1].split('.')[-1]
-                    facts[nm] = not neg
-                    arg = c[1][2][-1] if c[1][2] else None
-                    if nm.startswith('_stream_is_closed_by') and not (
-                            arg is not None and arg[0] == 'a' and
-                            arg[2] == 'stream_id' and arg[1][0] == 'exc'):
-                        ok2 = False     # must classify the id that was too
-                        #                 low (e.stream_id), not another one
+        facts = closed_by_facts(p)
+        if not facts['arg_ok']:
+            ok2 = False     # must classify the id that was too low
+            #                 (e.stream_id), not another one
         if facts.get('_stream_is_closed_by_reset'):
             frames = [e for e in p.events if e.kind == 'new' and
                       e.cls == 'RstStreamFrame']
@@ -434,7 +459,16 @@ def check_receive_frame(eng, ctx):
                           {'RECV_RST_STREAM', 'SEND_RST_STREAM'}),
                          ('_stream_is_closed_by_end',
                           {'RECV_END_STREAM', 'SEND_END_STREAM'})):
-        f3 = eng.m.func('connection.H2Connection.' + nm_)
+        try:
+            f3 = eng.m.func('connection.H2Connection.' + nm_)
+        except AnalysisError:
+            # the helper is gone: its body is written out where it was used,
+            # and closed_by_facts() has read the membership test there (a
+            # remaining call of the missing name would be an AttributeError
+            # reported by the escape analysis)
+            ctx.note('%s not present; classification read at the use '
+                     'sites' % nm_)
+            continue
         good = False
         for p in eng.I.run(f3):
             if p.exit != 'return':
